@@ -720,7 +720,17 @@ func promoteC09(c *Ctx) {
 							continue
 						}
 						if _, named := x.Type().(*types.Named); named {
-							continue // time.Duration scaling is outside the property's value kinds
+							// scaling a duration: a float *factor* must not be cut to whole
+							// nanosecond counts before the arithmetic (1h * 1.5 would fold to
+							// 1h); converting the float *result* is the only rounding there is
+							if fb.Info()&types.IsFloat != 0 && tb.Info()&types.IsInteger != 0 {
+								if _, isResult := x.X.(*ssa.BinOp); !isResult {
+									nConv++
+									seen["float factor"]++
+									c.Bad("C09.promote", fmt.Sprintf("%s: float factor -> %s #%d", fn.Name(), p.TypeStr(x.Type()), seen["float factor"]), x.Pos(), "a fractional factor or divisor is truncated to a whole number before the duration is scaled: 1h * 1.5 folds to 1h, 1h / 0.5 to a division by zero")
+								}
+							}
+							continue
 						}
 						nConv++
 						dir := fb.Name() + " -> " + tb.Name()
